@@ -13,6 +13,7 @@ group-law theorems are claimed.
 import ClvmProofs.Lemmas.Crypto
 
 namespace Clvm.Props.C32
+set_option linter.unusedSimpArgs false
 open Clvm Clvm.Crypto Clvm.Crypto.Ops Clvm.Crypto.Bls
 
 /-! ### scalars -/
@@ -42,6 +43,47 @@ theorem flipSignBit_involutive (b : Bytes) : flipSignBit (flipSignBit b) = b := 
     congr 1
     rw [UInt8.xor_assoc]; simp
 
+
+/-! ### negation by bit flip -/
+
+/-- `g1_negate` flips bit 5 of the first byte; on every finite point encoding that the ZCash decoder
+accepts (before the subgroup check) this is the group negation: the flipped encoding decodes to
+(x, −y).  (For the point at infinity the operator returns its argument unchanged.) -/
+theorem g1_flip_is_negation (b : Bytes) (P : Nat × Nat) (h : g1DecodeUnchecked b = some (some P)) :
+    g1DecodeUnchecked (flipSignBit b) = some (g1Neg (some P)) := by
+  cases b with
+  | nil => simp [g1DecodeUnchecked] at h
+  | cons b0 rest =>
+    have hx := xor32_facts b0.toNat (UInt8.toNat_lt b0)
+    obtain ⟨h128, h64, h32, hs, _⟩ := hx
+    have hf : (b0 ^^^ 0x20).toNat = b0.toNat ^^^ 32 := by simp [UInt8.toNat_xor]
+    simp only [flipSignBit, g1DecodeUnchecked, List.length_cons, hf, h128, h64, h32, hs] at h ⊢
+    split at h
+    · cases h
+    · rename_i hlen
+      simp only [hlen, if_false]
+      split at h
+      · cases h
+      · rename_i hc
+        simp only [hc, if_false]
+        split at h
+        · split at h <;> cases h
+        · rename_i hi
+          simp only [hi, if_false]
+          split at h
+          · cases h
+          · rename_i hxp
+            simp only [hxp, if_false]
+            split at h
+            · cases h
+            · rename_i y hy
+              have hyl := sqrtMod_lt p_pos hy
+              simp only [Option.some.injEq] at h
+              subst h
+              simp only [g1Neg, Curve.neg, g1Curve, fpOps, Option.some.injEq, Prod.mk.injEq, true_and]
+              have hbit : b0.toNat / 32 % 2 = 0 ∨ b0.toNat / 32 % 2 = 1 := by omega
+              rcases hbit with hb | hb <;> cases hL : fpIsLarger y <;>
+                simp [hb, negMod_negMod hyl]
 
 /-! ### strict vs RELAXED_BLS -/
 
@@ -106,6 +148,157 @@ theorem g2_negate_relaxed_superset (fs fr maxCost : Nat) (args : Tree) (r : OpRe
       | _ :: _ :: _, h => simp [throw, throwThe, MonadExceptOf.throw] at h
   · simp only [hfs, Bool.not_true] at h
     exact h
+
+/-! ### the one non-standard rule of `chia_bls::G1Element::from_bytes` -/
+
+/-- The encodings refused by the extra `chia_bls` rule (`chiaG1Quirk`: a finite-point encoding whose
+bytes 1‥47 are zero) are exactly `(0x80 + k) :: 0^47`, k < 64.  None of them is accepted by the
+standard decoder + subgroup check, so the rule changes no accept/reject decision
+(kernel evaluation of the independent implementation; first half k < 32). -/
+theorem chia_g1_rule_unobservable_lo : ((List.range 32).all (fun k =>
+    let b : Bytes := UInt8.ofNat (0x80 + k) :: List.replicate 47 0
+    chiaG1Quirk b && (match g1DecodeUnchecked b with
+      | some P => !inSubgroupG1 P
+      | none => true))) = true := by decide +kernel
+
+/-- second half, 32 ≤ k < 64 -/
+theorem chia_g1_rule_unobservable_hi : ((List.range 32).all (fun k =>
+    let b : Bytes := UInt8.ofNat (0xa0 + k) :: List.replicate 47 0
+    chiaG1Quirk b && (match g1DecodeUnchecked b with
+      | some P => !inSubgroupG1 P
+      | none => true))) = true := by decide +kernel
+
+/-! ### coinid -/
+
+/-- every amount `coinid` accepts denotes an integer in `[0, 2^64)` -/
+theorem coinid_amount_sound (a : Bytes) (h : coinidAmountError a = none) :
+    0 ≤ intOfBytes a ∧ intOfBytes a < 2 ^ 64 := by
+  cases a with
+  | nil => simp [intOfBytes]
+  | cons b0 tl =>
+    unfold coinidAmountError at h
+    simp only at h
+    by_cases hneg : (b0 &&& 0x80 != 0) = true
+    · simp only [hneg, ↓reduceIte] at h; cases h
+    · simp only [hneg, Bool.false_eq_true, ↓reduceIte] at h
+      by_cases hbig : (decide ((b0 :: tl).length > 9) || ((b0 :: tl).length == 9 && b0 != 0)) = true
+      · simp only [hbig, ↓reduceIte] at h
+        have hne : ∀ (c : Prop) [Decidable c] (x y : String), (if c then some x else some y) ≠ none := by
+          intro c _ x y; by_cases hc : c <;> simp [hc]
+        exact absurd h (hne _ _ _)
+      · clear h
+        have hb0 : b0.toNat < 0x80 := by
+          have : ¬ (b0 &&& 0x80 != 0) = true := hneg
+          have hh : ∀ n, n < 256 → (n &&& 0x80 = 0 → n < 0x80) := by decide +kernel
+          apply hh _ (UInt8.toNat_lt b0)
+          have : b0 &&& 0x80 = 0 := by simpa using this
+          have := congrArg UInt8.toNat this
+          simpa [UInt8.toNat_and] using this
+        have hval : intOfBytes (b0 :: tl) = (natOfBytesBE (b0 :: tl) : Int) := by
+          unfold intOfBytes
+          simp only
+          rw [if_neg (by omega)]
+        rw [hval]
+        refine ⟨Int.natCast_nonneg _, ?_⟩
+        simp only [List.length_cons, Bool.or_eq_true, decide_eq_true_eq, Bool.and_eq_true, beq_iff_eq,
+          bne_iff_ne, ne_eq, not_or, not_and, Decidable.not_not] at hbig
+        obtain ⟨hlen, h9⟩ := hbig
+        have hlt : natOfBytesBE (b0 :: tl) < 2 ^ 64 := by
+          by_cases hl : tl.length + 1 = 9
+          · have hz := h9 hl
+            subst hz
+            rw [natOfBytesBE_cons_zero]
+            have := natOfBytesBE_lt tl
+            have hl8 : tl.length = 8 := by omega
+            rw [hl8] at this
+            exact this
+          · have := natOfBytesBE_lt (b0 :: tl)
+            have hle : (b0 :: tl).length ≤ 8 := by simp only [List.length_cons]; omega
+            calc natOfBytesBE (b0 :: tl) < 256 ^ (b0 :: tl).length := this
+              _ ≤ 256 ^ 8 := Nat.pow_le_pow_right (by decide) hle
+              _ = 2 ^ 64 := by decide
+        exact_mod_cast hlt
+
+
+/-- `coinid` succeeds only on exactly three atoms (parent, puzzle hash, amount) of 32, 32 bytes and
+an accepted amount; it then returns sha256(parent ‖ puzzle ‖ amount) in a fresh atom, at the
+fixed cost of the selected cost model plus the allocation charge. -/
+theorem coinid_ok (flags maxCost : Nat) (args : Tree) (r : OpRes) (h : opCoinid flags maxCost args = .ok r) :
+    ∃ parent puzzle amount, matchArgs 3 args = some [.atom parent, .atom puzzle, .atom amount] ∧
+      parent.length = 32 ∧ puzzle.length = 32 ∧ coinidAmountError amount = none ∧
+      r.value = .atom (Hash.sha256 (parent ++ puzzle ++ amount)) ∧ r.fresh = true ∧
+      r.cost = (if newCostModel flags then Gen.Crypto.newCoinidCost else Gen.Crypto.coinidCost)
+                + (Hash.sha256 (parent ++ puzzle ++ amount)).length * Gen.Crypto.mallocCostPerByte := by
+  unfold opCoinid getArgs at h
+  cases hm : matchArgs 3 args with
+  | none => simp [hm, bind, Except.bind] at h
+  | some l =>
+    simp only [hm, bind, Except.bind] at h
+    match l, h with
+    | [x, y, z], h =>
+      simp only at h
+      cases x with
+      | pair _ _ => simp [atomOf] at h
+      | atom parent =>
+        simp only [atomOf] at h
+        by_cases hp : parent.length = 32
+        · simp only [hp, ne_eq, not_true_eq_false, if_false, pure, Except.pure] at h
+          cases y with
+          | pair _ _ => simp at h
+          | atom puzzle =>
+            simp only at h
+            by_cases hz : puzzle.length = 32
+            · simp only [hz, ne_eq, not_true_eq_false, if_false] at h
+              cases z with
+              | pair _ _ => simp at h
+              | atom amount =>
+                simp only at h
+                cases ha : coinidAmountError amount with
+                | some msg => simp [ha, throw, throwThe, MonadExceptOf.throw] at h
+                | none =>
+                  simp only [ha] at h
+                  by_cases hl : (Hash.sha256 (parent ++ puzzle ++ amount)).length = 32
+                  · simp only [hl, ne_eq, not_true_eq_false, if_false, newAtomAndCost] at h
+                    cases h
+                    exact ⟨parent, puzzle, amount, rfl, hp, hz, ha, rfl, rfl, rfl⟩
+                  · simp only [hl, ne_eq, not_false_eq_true, if_true, throw, throwThe, MonadExceptOf.throw] at h
+                    cases h
+            · simp [hz, throw, throwThe, MonadExceptOf.throw] at h
+        · simp [hp, throw, throwThe, MonadExceptOf.throw] at h
+    | [], h => simp [throw, throwThe, MonadExceptOf.throw] at h
+    | [_], h => simp [throw, throwThe, MonadExceptOf.throw] at h
+    | [_, _], h => simp [throw, throwThe, MonadExceptOf.throw] at h
+    | _ :: _ :: _ :: _ :: _, h => simp [throw, throwThe, MonadExceptOf.throw] at h
+
+/-- the amounts `coinid` refuses although they denote a u64: a redundant leading zero byte
+(`[0]`, or `0 :: b1 :: _` with `b1 < 0x80`), i.e. every non-minimal encoding -/
+theorem coinid_rejects_leading_zero (b1 : UInt8) (tl : Bytes) (h : b1.toNat < 0x80) :
+    coinidAmountError [0] ≠ none ∧ coinidAmountError (0 :: b1 :: tl) ≠ none := by
+  have hb : (b1 &&& 0x80 == 0) = true := by
+    have hh : ∀ n, n < 256 → n < 0x80 → n &&& 0x80 = 0 := by decide +kernel
+    have := hh _ (UInt8.toNat_lt b1) h
+    simp only [beq_iff_eq]
+    apply UInt8.toNat_inj.mp
+    simpa [UInt8.toNat_and] using this
+  constructor
+  · decide
+  · unfold coinidAmountError
+    simp [hb]
+
+/-- negative amounts are refused -/
+theorem coinid_rejects_negative (b0 : UInt8) (tl : Bytes) (h : 0x80 ≤ b0.toNat) :
+    coinidAmountError (b0 :: tl) ≠ none := by
+  have hb : (b0 &&& 0x80 != 0) = true := by
+    have hh : ∀ n, n < 256 → 0x80 ≤ n → n &&& 0x80 ≠ 0 := by decide +kernel
+    have := hh _ (UInt8.toNat_lt b0) h
+    simp only [bne_iff_ne, ne_eq]
+    intro hc
+    apply this
+    have := congrArg UInt8.toNat hc
+    simpa [UInt8.toNat_and] using this
+  unfold coinidAmountError
+  simp [hb]
+
 
 /-! ### pairing: implementation verdict vs mathematical statement (finding J) -/
 
